@@ -305,7 +305,7 @@ func wrapperRule(c *Ctx, rule string) {
 		n++
 		ob := c.Ob(rule, spec.name, fd.Pos())
 		bad, undec, cases := "", "", 0
-		for _, s := range shortStrings("[{\na", 4) {
+		for _, s := range shortStrings("[{\na", c.depth(4, 6)) {
 			obs, why := wrapperFold(c, fd, spec.machine, s)
 			if why != "" {
 				undec = why
@@ -335,7 +335,7 @@ func wrapperRule(c *Ctx, rule string) {
 		case bad != "":
 			ob.Fail("%s", bad)
 		default:
-			ob.Ok("for all %d inputs of length <= 4 over {'[', '{', newline, letter}: no root bracket => (nil, error); otherwise the machine gets exactly the text from the first %q and its (root, err) is returned unchanged", cases, spec.bracket)
+			ob.Ok("for all %d inputs of length <= "+itoa(c.depth(4, 6))+" over {'[', '{', newline, letter}: no root bracket => (nil, error); otherwise the machine gets exactly the text from the first %q and its (root, err) is returned unchanged", cases, spec.bracket)
 		}
 	}
 	c.R.Floor(rule, n, 2)
@@ -741,7 +741,7 @@ func c04StringAccess(c *Ctx) {
 		}
 		ob := c.Ob("C04.R5", spec.name+"/input-access", fd.Pos())
 		bad, undec, n := "", "", 0
-		for _, s := range shortStrings("[{\na", 4) {
+		for _, s := range shortStrings("[{\na", c.depth(4, 6)) {
 			obs, why := wrapperFold(c, fd, spec.machine, s)
 			n++
 			if strings.Contains(why, "out of range") || strings.Contains(obs.why, "out of range") {
@@ -763,7 +763,7 @@ func c04StringAccess(c *Ctx) {
 		case undec != "":
 			ob.Undecided("%s", undec)
 		default:
-			ob.Ok("no index or slice of the input goes out of range on any of the %d inputs of length <= 4 (helpers inlined)", n)
+			ob.Ok("no index or slice of the input goes out of range on any of the %d inputs of length <= "+itoa(c.depth(4, 6))+" (helpers inlined)", n)
 		}
 	}
 	for _, m := range c.machines().each() {
@@ -1188,7 +1188,7 @@ func c20Seeds(c *Ctx) {
 		n++
 		ob := c.Ob("C20.R3", spec.name+"/seed", fd.Pos())
 		bad, undec, cases := "", "", 0
-		for _, s := range shortStrings("[{\na", 4) {
+		for _, s := range shortStrings("[{\na", c.depth(4, 6)) {
 			idx := strings.Index(s, spec.bracket)
 			if idx < 0 {
 				continue
@@ -1219,7 +1219,7 @@ func c20Seeds(c *Ctx) {
 		case bad != "":
 			ob.Fail("the machine's line counter is not seeded with 1 + the number of newlines before the root bracket: %s", bad)
 		default:
-			ob.Ok("for all %d inputs with a root bracket (length <= 4 over {'[', '{', newline, letter}) the counter handed to the machine by address starts at 1 + newlines before the bracket", cases)
+			ob.Ok("for all %d inputs with a root bracket (length <= "+itoa(c.depth(4, 6))+" over {'[', '{', newline, letter}) the counter handed to the machine by address starts at 1 + newlines before the bracket", cases)
 		}
 	}
 	c.R.Floor("C20.R3", n, 2)
@@ -1409,7 +1409,7 @@ func c04ConsumersTotal(c *Ctx) {
 				undec = p.Why
 			}
 		}
-		inputs := shortStrings("-+0.1e\"a", 3)
+		inputs := shortStrings("-+0.1e\"a", c.depth(3, 4))
 		for _, in := range inputs {
 			if bad != "" || undec != "" {
 				break
@@ -1467,7 +1467,7 @@ func c04ConsumersTotal(c *Ctx) {
 		case bad != "":
 			ob.Fail("a token makes the parser panic instead of returning an error: %s", bad)
 		default:
-			ob.Ok("no index or slice of a string goes out of range on any of the %d tokens of length <= 3", len(inputs))
+			ob.Ok("no index or slice of a string goes out of range on any of the %d tokens of length <= "+itoa(c.depth(3, 4)), len(inputs))
 		}
 	}
 	c.R.Floor("C04.R9", n, 2)
